@@ -158,7 +158,8 @@ class World:
     # ------------------------------------------------------------------ the node's connection socket
     @property
     def sock(self):
-        for s in self.net.socks:
+        """the node's most recent connection socket"""
+        for s in reversed(self.net.socks):
             if s.kind == "stream" and s.state != "new":
                 return s
         return None
@@ -191,26 +192,33 @@ class World:
     def run(self, pred, horizon=10.0):
         return self.sched.run_until(lambda: pred() or self.sched.overrun, horizon)
 
-    def open_connection(self, horizon=20.0):
+    def open_connection(self, horizon=20.0, name="app-start"):
         """start() + capabilities exchange with the scripted peer.  -> True when Open was reached"""
-        self.start()
+        n_socks = len(self.net.socks)
+        n_listen = len(self.net.listeners)
+        self.start(name)
         if self.role == "client":
             self.net.connect_policy = "ack"
-            r = self.run(lambda: any(m["cmd"] == 257 for m in self._safe_sent()), horizon)
+            self.run(lambda: len(self.conn_socks_since(n_socks)) > 0 and any(m["cmd"] == 257 for m in self._safe_sent()), horizon)
+            if not self.conn_socks_since(n_socks):
+                return False
             cer = next((m for m in self._safe_sent() if m["cmd"] == 257), None)
             if cer is None:
                 return False
             self.feed(peer_cea(cer["hbh"], cer["e2e"]))
         else:
-            self.run(lambda: bool(self.net.listeners), horizon)
-            if not self.net.listeners:
+            self.run(lambda: len(self.net.listeners) > n_listen, horizon)
+            if len(self.net.listeners) <= n_listen:
                 return False
-            self.net.peer_connect(self.net.listeners[0])
-            self.run(lambda: self.sock is not None and self.d._association is not None and self.d._association.transport is not None
+            self.net.peer_connect(self.net.listeners[-1])
+            self.run(lambda: self.d._association is not None and self.d._association.transport is not None
                      and self.sock in self.d._association.transport.selector.get_map(), horizon)
             self.feed(peer_cer())
         self.run(lambda: self.d.is_open(), horizon)
         return bool(self.d.is_open())
+
+    def conn_socks_since(self, n):
+        return [s for s in self.net.socks[n:] if s.kind == "stream" and s.state != "new"]
 
     def _safe_sent(self):
         try:
